@@ -66,9 +66,10 @@ public:
         assert (this != chain.load(std::memory_order_relaxed));
         //release memory order because we need to other thread to see change of _next
         //this is last operation of this thread with awaiter
-        while (!chain.compare_exchange_weak(_next, this, std::memory_order_release));
-
-        assert (_next != this);
+        while (!chain.compare_exchange_weak(_next, this, std::memory_order_release)) {
+            //the awaiter is not published yet, it is safe to inspect it here (and only here)
+            assert (_next != this);
+        }
     }
     ///releases chain atomicaly
     /**
